@@ -1492,3 +1492,148 @@ func ruleR159(c *Ctx) {
 		c.Undecided("repo#string-converters", token.NoPos, "no FromString(string) method found (the string converter of the value package is expected)")
 	}
 }
+
+// ---------------------------------------------------------------------------
+// R15.10 the tokenizer scans the source exactly as it was handed to Parse
+//
+// Lines are counted by the tokenizer while it scans. Whatever is cut off or
+// rewritten before the text reaches it (trimmed blanks and line breaks, a
+// normalised line ending, a removed byte order mark) is not counted: every
+// line reported afterwards is too small by the removed line breaks, and
+// layout that pushes the first token down by blank lines no longer equals
+// layout that does so with a comment.
+
+func ruleR1510(c *Ctx) {
+	root := c.Pkg("")
+	if root == nil {
+		c.Undecided("package parser2", token.NoPos, "not found")
+		return
+	}
+	newTok := LookupFunc(root, "NewTokenizer")
+	if newTok == nil {
+		c.Undecided("parser2.NewTokenizer", token.NoPos, "not found")
+		return
+	}
+	// unchangedParam: e is a string parameter of fn that is never assigned in fn (or a local with one definition that is one)
+	var unchangedParam func(info *types.Info, fn ast.Node, e ast.Expr, depth int) (bool, string)
+	unchangedParam = func(info *types.Info, fn ast.Node, e ast.Expr, depth int) (bool, string) {
+		// cutting a constant that holds no line break off one end (a byte order mark) removes no line
+		if call, ok := ast.Unparen(e).(*ast.CallExpr); ok && len(call.Args) == 2 && depth < 3 {
+			if cal := Callee(info, call); cal != nil && cal.Pkg() != nil && cal.Pkg().Path() == "strings" {
+				switch cal.Name() {
+				case "TrimPrefix", "TrimSuffix", "TrimLeft", "TrimRight", "Trim":
+					if tv := info.Types[call.Args[1]]; tv.Value != nil && tv.Value.Kind() == constant.String && !strings.ContainsAny(constant.StringVal(tv.Value), "\n\r") {
+						return unchangedParam(info, fn, call.Args[0], depth+1)
+					}
+				}
+			}
+		}
+		id, ok := ast.Unparen(e).(*ast.Ident)
+		if !ok {
+			return false, "the expression " + nodeStr(c.Fset, e)
+		}
+		obj := info.ObjectOf(id)
+		var ft *ast.FuncType
+		switch t := fn.(type) {
+		case *ast.FuncDecl:
+			ft = t.Type
+		case *ast.FuncLit:
+			ft = t.Type
+		}
+		isParam := false
+		if ft != nil && ft.Params != nil {
+			for _, f := range ft.Params.List {
+				for _, nm := range f.Names {
+					if info.Defs[nm] == obj {
+						isParam = true
+					}
+				}
+			}
+		}
+		if isParam {
+			if n := countAssignments(info, fn, obj); n > 0 {
+				if as, i := definingAssign(info, fn, obj); as != nil && len(as.Rhs) == len(as.Lhs) {
+					// str = strings.TrimPrefix(str, bom)
+					if call, ok := ast.Unparen(as.Rhs[i]).(*ast.CallExpr); ok && n == 1 && len(call.Args) == 2 && depth < 3 {
+						if a0, ok := ast.Unparen(call.Args[0]).(*ast.Ident); ok && info.ObjectOf(a0) == obj {
+							if cal := Callee(info, call); cal != nil && cal.Pkg() != nil && cal.Pkg().Path() == "strings" {
+								switch cal.Name() {
+								case "TrimPrefix", "TrimSuffix", "TrimLeft", "TrimRight", "Trim":
+									if tv := info.Types[call.Args[1]]; tv.Value != nil && tv.Value.Kind() == constant.String && !strings.ContainsAny(constant.StringVal(tv.Value), "\n\r") {
+										return true, ""
+									}
+								}
+							}
+						}
+					}
+					return false, fmt.Sprintf("%s, which is overwritten by %s", id.Name, nodeStr(c.Fset, as.Rhs[i]))
+				}
+				return false, id.Name + ", which is assigned in this function"
+			}
+			return true, ""
+		}
+		if depth < 3 && countAssignments(info, fn, obj) == 1 {
+			if as, i := definingAssign(info, fn, obj); as != nil && len(as.Rhs) == len(as.Lhs) {
+				return unchangedParam(info, fn, as.Rhs[i], depth+1)
+			}
+		}
+		return false, "the variable " + id.Name
+	}
+	n := 0
+	for _, pkg := range c.RepoPkgs {
+		info := pkg.TypesInfo
+		forEachFuncBody([]*packages.Package{pkg}, func(_ *packages.Package, fn ast.Node, body *ast.BlockStmt) {
+			k := 0
+			inspectNoLit(body, func(x ast.Node) bool {
+				call, ok := x.(*ast.CallExpr)
+				if !ok || !isCallTo(info, call, newTok) || len(call.Args) == 0 {
+					return true
+				}
+				k++
+				n++
+				key := fmt.Sprintf("%s#source-unchanged[%d]", c.FuncName(fn)+litSuffix(c, fn), k)
+				if ok, why := unchangedParam(info, fn, call.Args[0], 0); ok {
+					c.OK(key, call.Pos(), "the tokenizer gets the string parameter of the function as it is")
+				} else {
+					c.Violation(key, call.Pos(), "the text handed to the tokenizer is %s, not the source as it was passed in: line breaks (and blanks, comments) that are removed or rewritten before the tokenizer sees them are not counted, so every reported line is too small by the removed line breaks and no longer the line on which the token starts", why)
+				}
+				return true
+			})
+		})
+	}
+	// the constructor stores its parameter
+	if fd := c.FuncDecl(root, "", "NewTokenizer"); fd != nil && fd.Body != nil {
+		info := root.TypesInfo
+		key := "parser2.NewTokenizer#source-unchanged"
+		found, good, why := false, false, ""
+		ast.Inspect(fd.Body, func(x ast.Node) bool {
+			kv, ok := x.(*ast.KeyValueExpr)
+			if !ok {
+				return true
+			}
+			kid, ok := kv.Key.(*ast.Ident)
+			if !ok {
+				return true
+			}
+			if b, isB := info.TypeOf(kv.Value).Underlying().(*types.Basic); !isB || b.Kind() != types.String {
+				return true
+			}
+			if v, ok := info.ObjectOf(kid).(*types.Var); ok && v.IsField() && !found {
+				found = true
+				good, why = unchangedParam(info, fd, kv.Value, 0)
+			}
+			return true
+		})
+		if found {
+			n++
+			if good {
+				c.OK(key, fd.Pos(), "the scanned text is the parameter as it is")
+			} else {
+				c.Violation(key, fd.Pos(), "the tokenizer scans %s, not the text it was given: what is removed before scanning is not counted as lines", why)
+			}
+		}
+	}
+	if n < 2 {
+		c.Undecided("parser2#tokenizer-construction", token.NoPos, "only %d construction sites of the tokenizer found", n)
+	}
+}
